@@ -1,14 +1,63 @@
-"""Pre-compute spec-only TLC results (cache) for a tier."""
+"""Pre-compute the spec-only TLC results (cache) of a tier: they depend on spec/*.tla, the extracted tables, the
+configuration and (for simulations) VERIF_SEED only -- never on the implementation's behaviour."""
+import os
 import sys
+import time
+
+sys.path.insert(0, os.path.join(os.path.dirname(os.path.abspath(__file__)), "props"))
 
 
 def main(tier="quick"):
+    t0 = time.time()
+    import extract
+    extract.write()
+
+    def step(label, fn):
+        t = time.time()
+        try:
+            r = fn()
+            stats = r[0]
+            bad = [s for s in stats if not s.ok]
+            print(f"warm: {label}: {sum(s.distinct for s in stats)} states{' (cached)' if r[2] else ''} {time.time() - t:.0f}s"
+                  f"{' NOT OK: ' + str(bad[0].violated or bad[0].error)[:200] if bad else ''}", flush=True)
+        except Exception as e:  # noqa
+            print(f"warm: {label}: FAILED {e}", flush=True)
+
     import lexmodel
     for cfgname, (alpha, qlen, tlen) in lexmodel.ALPHABETS.items():
-        stats, exports, cached = lexmodel.cached_config(cfgname, qlen if tier == "quick" else tlen)
-        bad = [s for s in stats if not s.ok]
-        print(f"warm: Lexer/{cfgname}: {sum(s.distinct for s in stats)} states, {len(exports)} behaviours"
-              f"{' (cached)' if cached else ''}{' NOT OK: ' + str(bad[0].violated or bad[0].error) if bad else ''}")
+        step(f"Lexer/{cfgname}", lambda c=cfgname, n=(qlen if tier == "quick" else tlen): lexmodel.cached_config(c, n))
+    import c12
+    for cfgname, (alpha, ql, tl, qa, ta) in c12.ALPHABETS.items():
+        step(f"LexerRespell/{cfgname}", lambda c=cfgname, a=((ql, qa) if tier == "quick" else (tl, ta)): c12.cached(c, a[0], a[1]))
+    import c11
+    step("Literals", lambda: c11.cached(1 if tier == "quick" else 2))
+    import driverprops
+    step("Driver/history", lambda: driverprops.cached_family("history", 3 if tier == "quick" else 4, 0))
+    step("Driver/tree", lambda: driverprops.cached_family("tree", 3, 1 if tier == "quick" else 2))
+    step("Driver/options", lambda: driverprops.cached_family("options", 0, 0))
+    import normprops
+    for kind in ("c", "h"):
+        step(f"Norm/{kind}/exhaustive", lambda k=kind: normprops.exh_corpus(tier, k))
+        step(f"Norm/{kind}/simulation", lambda k=kind: normprops.sim_corpus(tier, k))
+    import c02
+    step("Viol/exhaustive", lambda: c02.exh_viol(tier))
+    for kind, n in (("c", 3200), ("h", 320)) if tier == "quick" else (("c", 48000), ("h", 3200)):
+        step(f"Viol/{kind}/simulation", lambda k=kind, m=n: normprops.sim_corpus(tier, k, withviol=True, n=m))
+    import relprops
+    for kind in ("c", "h"):
+        for wv in (False, True):
+            n = {("quick", "c"): 800, ("quick", "h"): 240, ("thorough", "c"): 8000, ("thorough", "h"): 1600}[(tier, kind)]
+            step(f"corpus/{kind}/{wv}", lambda k=kind, w=wv, m=n: normprops.sim_corpus(tier, k, withviol=w, n=m))
+            step(f"Locality/{kind}/{wv}", lambda k=kind, w=wv: relprops.loc_corpus(tier, k, w))
+    import c03, c13, c14, c05pipe, c07garb
+    step("Limits", c03.cached)
+    step("Header42", lambda: c13.cached(1 if tier == "quick" else 2))
+    step("Guard", lambda: c14.cached(1 if tier == "quick" else 2))
+    for cfg in c05pipe.CONFIGS[tier]:
+        step(f"Edits/{cfg}", lambda c=cfg: c05pipe.cached(*c))
+    for cfg in c07garb.CONFIGS[tier]:
+        step(f"Garbage/{cfg}", lambda c=cfg: c07garb.cached(*c))
+    print(f"warm: done in {time.time() - t0:.0f}s", flush=True)
     return 0
 
 
